@@ -189,7 +189,7 @@ func (x *Exec) declsFor(text string) string {
 	var b strings.Builder
 	var usedLits []string
 	for _, s := range c.litOrder {
-		if strings.Contains(text, c.lits[s]) {
+		if c.isPreset[c.lits[s]] || strings.Contains(text, c.lits[s]) {
 			usedLits = append(usedLits, s)
 		}
 	}
